@@ -1,7 +1,7 @@
 # C15 — a named output becomes visible under its final name only when complete.
-import common, p_C14
+import common, p_C14, p_xw
 from concurrent.futures import ThreadPoolExecutor
-THEOREMS = ["C15_prefix", "C15_only_part_written", "C15_compressed", "C15_nonvacuous"]
+THEOREMS = ["C15_prefix", "C15_only_part_written", "C15_compressed", "C15_exporter", "C15_exporter_files", "C15_nonvacuous"]
 VARIANT = "plain"
 PRE = {"out2": b"an older, complete file", "out2.gz": None, "out2.xz": None}
 
@@ -80,12 +80,19 @@ def run(ctx):
             a = common.canon_trace([l for l in il if l.startswith("ev ")], comp != "none")
             b = common.canon_trace([l for l in ml if l.startswith("ev ")], comp != "none")
             if a != b: diffs.append((cid, case, "observed system-call trace differs from the model's: impl %r vs model %r" % (a[:12], b[:12])))
+    # the same with the EXPORTER on top (theorems C15_exporter, C15_exporter_files): exporter histories on named outputs, every crash point
+    xcases, xdiffs, xfails, xstats = p_xw.section(ctx, p_xw.gen(rng, 24 if tier == "quick" else 400, kinds=("name",)), "x", crash=True)
+    cases += xcases; diffs += xdiffs; fails += xfails; total_crash += xstats["exporter_crash_points"]
+    rep.cov.update(xstats)
     common.summarize_cov(rep, cases,
         "scenarios on named outputs (plain / gzip / xz): several rotations, rotation onto a name whose file exists from before, consecutive "
         "rotations, destruction with and without data, 70000-byte chunks. (1) the observed fopen/write/writev/fclose/rename sequence (adjacent "
         "writes coalesced) must equal the model's event trace; (2) the process is killed before its k-th output operation for EVERY k: each "
         "file then found under a final name must be the pre-existing file or a complete output (complete compressed stream, decompressing to the "
-        "data written). distinct = distinct scripts", diffs, fails)
+        "data written). Then exporter histories (buffer_qr / write_block / rotate_output with and without export / destruction, block sizes 1..50, "
+        "names up to 250 bytes so that blocks span several 2 KiB staging buffers) on named outputs: return values, counters and the system-call trace "
+        "WRITE BY WRITE (plain) against the model chain exporter -> encoder chunks -> writer -> events, and every crash point again. "
+        "distinct = distinct scripts", diffs, fails)
     rep.cov["crash_points_explored"] = total_crash
     rep.cov["traces_validated_against_impl"] = len(cases)
     return {"diffs": diffs, "fails": fails, "to_script": lambda c: common.case_script(c)}
